@@ -68,6 +68,10 @@ impl SwarmDriver {
             None => (vec![], false),
         }
     }
+    /// The distance beyond which the fetcher takes nothing (set once the store reported itself full).
+    pub fn verif_fetcher_farthest(&self) -> Option<libp2p::kad::KBucketDistance> {
+        crate::replication_fetcher::verif_fetcher::fetcher_farthest(&self.replication_fetcher)
+    }
     pub fn verif_fetcher_view(&self) -> (usize, usize) {
         let f = crate::replication_fetcher::verif_fetcher::fetcher_counts(&self.replication_fetcher);
         f
